@@ -29,8 +29,8 @@ NPROC = os.cpu_count() or 16
 
 TIERS = {
     # explore: list of (first worker id, workers, runs per worker, concurrency bias %, restart-before-run %)
-    "quick": dict(explore=[(0, 10, 3000, 30, 75), (50, 1, 2000, 30, 10), (60, 1, 2000, 30, 1), (61, 1, 1200, 70, 0, 9000), (62, 1, 800, 70, 0, 70000), (100, 4, 1400, 90, 75)], seconds_cap=90, sweeps=1, hash_orders=8, determinism_runs=150, miri_seeds=0, max_minimise=3, fresh_sample=48, hot_keys=2, stress=(300, 5, 14), longrun=(2, 200000, 0)),
-    "thorough": dict(explore=[(0, 10, 3000, 30, 75), (50, 1, 2000, 30, 10), (60, 1, 2000, 30, 1), (61, 1, 1200, 70, 0, 9000), (62, 1, 1200, 70, 0, 70000), (100, 4, 1400, 90, 75), (1000, 10, 40000, 30, 75), (1050, 1, 30000, 30, 10), (1060, 1, 30000, 30, 1), (1061, 1, 20000, 70, 0, 20000), (1062, 1, 20000, 70, 0, 140000), (1063, 1, 20000, 70, 0, 600000), (2000, 4, 12000, 90, 75)], seconds_cap=540, sweeps=8, hash_orders=64, determinism_runs=400, miri_seeds=16, max_minimise=6, fresh_sample=256, hot_keys=8, stress=(300, 8, 150), longrun=(4, 1200000, 1)),
+    "quick": dict(explore=[(0, 10, 3000, 30, 75), (50, 1, 2000, 30, 10), (60, 1, 2000, 30, 1), (61, 1, 1200, 70, 0, 9000), (62, 1, 800, 70, 0, 70000), (100, 4, 1400, 90, 75)], seconds_cap=90, sweeps=1, hash_orders=8, determinism_runs=150, miri_seeds=0, max_minimise=3, fresh_sample=48, hot_keys=2, stress=(300, 5, 14), longrun=[(2, 200000, 0, "0/1"), (2, 100000, 0, "3/4")]),
+    "thorough": dict(explore=[(0, 10, 3000, 30, 75), (50, 1, 2000, 30, 10), (60, 1, 2000, 30, 1), (61, 1, 1200, 70, 0, 9000), (62, 1, 1200, 70, 0, 70000), (100, 4, 1400, 90, 75), (1000, 10, 40000, 30, 75), (1050, 1, 30000, 30, 10), (1060, 1, 30000, 30, 1), (1061, 1, 20000, 70, 0, 20000), (1062, 1, 20000, 70, 0, 140000), (1063, 1, 20000, 70, 0, 600000), (2000, 4, 12000, 90, 75)], seconds_cap=540, sweeps=8, hash_orders=64, determinism_runs=400, miri_seeds=16, max_minimise=6, fresh_sample=256, hot_keys=8, stress=(300, 8, 150), longrun=[(4, 1200000, 1, "0/1"), (2, 600000, 0, "3/4")]),
 }
 
 
@@ -626,11 +626,15 @@ def run_check(tier, seed):
     jobs.append(("hotkey", [BIN, "hotkey", "--seed", str(seed), "--keys", str(cfg["hot_keys"]), "--out", out], out))
     # long-history sub-check: the same N distinct queries in one long-lived process, one order per process
     # (the last lr_mt of them deal every block of 4,096 queries to 4 threads under the random-walk scheduler)
-    (lr_procs, lr_n, lr_mt) = cfg["longrun"]
-    lr_threads = {i: (4 if i >= lr_procs - lr_mt else 1) for i in range(lr_procs)}
-    for i in range(lr_procs):
-        out = os.path.join(work, "longrun_%d.json" % i)
-        jobs.append(("longrun%d" % i, [BIN, "longrun", "--seed", str(seed), "--index", str(i), "--n", str(lr_n), "--threads", str(lr_threads[i]), "--out", out, "--answers", os.path.join(work, "longrun_%d.txt" % i)], out))
+    # Second group: a refusal-heavy history (3 of 4 queries are requests built to be refused).
+    lr_args = {}
+    for (lr_procs, lr_n, lr_mt, lr_ref) in cfg["longrun"]:
+        for i in range(lr_procs):
+            tag = "%s_%d" % (lr_ref.replace("/", "of"), i)
+            out = os.path.join(work, "longrun_%s.json" % tag)
+            extra = ["--n", str(lr_n), "--threads", str(4 if i >= lr_procs - lr_mt else 1), "--refusals", lr_ref]
+            lr_args[(lr_ref, i)] = (extra, os.path.join(work, "longrun_%s.txt" % tag))
+            jobs.append(("longrun%s" % tag, [BIN, "longrun", "--seed", str(seed), "--index", str(i)] + extra + ["--out", out, "--answers", lr_args[(lr_ref, i)][1]], out))
     explore_ids = []
     for spec in cfg["explore"]:
         (w0, nw, runs, conc, rpct) = spec[:5]
@@ -739,29 +743,34 @@ def run_check(tier, seed):
 
     # long-history sub-check: the processes asked the same queries in different orders; every answer
     # must be the same in all of them
-    longruns.sort(key=lambda d: d["index"])
     LONG["stats"] = None
-    if longruns and not any(d["violations"] for d in longruns):
+    long_groups = []
+    for (lr_procs, lr_n, lr_mt, lr_ref) in cfg["longrun"]:
+        grp = sorted([d for d in longruns if d.get("refusals") == lr_ref], key=lambda d: d["index"])
+        if len(grp) != lr_procs or any(d["violations"] for d in grp):
+            continue
         tabs = []
-        for d in longruns:
-            with open(os.path.join(work, "longrun_%d.txt" % d["index"])) as f:
+        for d in grp:
+            with open(lr_args[(lr_ref, d["index"])][1]) as f:
                 tabs.append([ln.split(" ", 2) for ln in f.read().splitlines()])
-        if len(set(len(t) for t in tabs)) != 1 or len(tabs[0]) != longruns[0]["n"]:
+        if len(set(len(t) for t in tabs)) != 1 or len(tabs[0]) != grp[0]["n"]:
             harness.append("long-history processes returned tables of different length")
-        else:
-            bad = []
-            for i in range(len(tabs[0])):
-                a0 = tabs[0][i][0]
-                for k in range(1, len(tabs)):
-                    if tabs[k][i][0] != a0:
-                        rows = sorted(((int(tabs[j][i][1]), longruns[j]["index"], tabs[j][i][0]) for j in range(len(tabs))), reverse=True)
-                        bad.append((rows[0][0], tabs[0][i][2], rows))
-                        break
-            bad.sort()
-            for (latest, key, rows) in bad[:3]:
-                # most suspicious first: the process in which the query came latest
-                cands.append({"obligation": "A", "key": key, "detail": "long-history processes disagree: " + ", ".join("process %d answered %s at position %d" % (ix, ans, at) for (at, ix, ans) in rows), "history": "run threads=1 policy=seq sched=0 hash=0 reset=1\nt0 q %s\nend\n" % key, "source": "long-history sub-check", "prefix_of": [("longrun", seed, ix, at, ["--n", str(longruns[0]["n"]), "--threads", str(lr_threads[ix])]) for (at, ix, ans) in rows]})
-            LONG["stats"] = {"processes": len(longruns), "orders": ["forwards", "backwards", "shuffled", "shuffled"][:len(longruns)], "threads_per_process": [d.get("threads", 1) for d in longruns], "queries_per_process": longruns[0]["n"], "evaluations": sum(d["evaluations"] for d in longruns), "refused_per_process": longruns[0]["refused"], "queries_per_family": longruns[0]["queries_per_family"], "month_memo_entries_at_end": [d["month_memo_entries_after"] for d in longruns], "answers_that_differ_between_processes": len(bad), "wall_s": [d["wall_s"] for d in longruns]}
+            continue
+        bad = []
+        for i in range(len(tabs[0])):
+            a0 = tabs[0][i][0]
+            for k in range(1, len(tabs)):
+                if tabs[k][i][0] != a0:
+                    rows = sorted(((int(tabs[j][i][1]), grp[j]["index"], tabs[j][i][0]) for j in range(len(tabs))), reverse=True)
+                    bad.append((rows[0][0], tabs[0][i][2], rows))
+                    break
+        bad.sort()
+        for (latest, key, rows) in bad[:3]:
+            # most suspicious first: the process in which the query came latest
+            cands.append({"obligation": "A", "key": key, "detail": "long-history processes disagree: " + ", ".join("process %d answered %s at position %d" % (ix, ans, at) for (at, ix, ans) in rows), "history": "run threads=1 policy=seq sched=0 hash=0 reset=1\nt0 q %s\nend\n" % key, "source": "long-history sub-check", "prefix_of": [("longrun", seed, ix, at, lr_args[(lr_ref, ix)][0]) for (at, ix, ans) in rows]})
+        long_groups.append({"requests_built_to_be_refused": lr_ref, "processes": len(grp), "orders": ["forwards", "backwards", "shuffled", "shuffled"][:len(grp)], "threads_per_process": [d.get("threads", 1) for d in grp], "queries_per_process": grp[0]["n"], "evaluations": sum(d["evaluations"] for d in grp), "refused_per_process": grp[0]["refused"], "queries_per_family": grp[0]["queries_per_family"], "month_memo_entries_at_end": [d["month_memo_entries_after"] for d in grp], "answers_that_differ_between_processes": len(bad), "wall_s": [d["wall_s"] for d in grp]})
+    if long_groups:
+        LONG["stats"] = {"groups": long_groups, "evaluations": sum(g["evaluations"] for g in long_groups)}
 
     # hash-order sub-check: every process (own hasher seed from its first instruction on) must give
     # the answers of process 0 (seed 0, which is also what the cold singleton uses)
